@@ -65,12 +65,13 @@ def _scan_depth() -> int:
 
 
 class Log:
-    __slots__ = ("searches", "hits", "supplied", "keep")
+    __slots__ = ("searches", "hits", "supplied", "keep", "has_kids")
 
     def __init__(self):
         self.searches = []  # (search id, level, value)         one per (node searched)
         self.hits = {}  # id(node) -> (search id, registry index, position, text, a, b)
         self.supplied = {}  # id(node) -> id(top hit) for every decoder-supplied descendant, at return time
+        self.has_kids = set()  # id(hit) for hits that came with decoder-supplied children
         self.keep = []  # keeps every returned object alive so that ids stay unique
 
 
@@ -89,6 +90,8 @@ def instrument(registry, log: Log):
                 log.hits[id(h)] = (sid, ri, k, value, h.start, h.end)
                 log.keep.append(h)
                 st = list(h.children)
+                if st:
+                    log.has_kids.add(id(h))
                 while st:
                     c = st.pop()
                     log.supplied[id(c)] = id(h)
